@@ -1300,6 +1300,47 @@ def r_useless_kept(ctx):
              "is kept, so the result differs from connect_coding_graph" % show(arg)[:40],
              inputs='latter maps naming a successor that has no key, e.g. accessor_to_latter_map(connect_valid_graph(mask))')
     run.floor('R-KEEP', 'kept-successor appends in remove_useless', n, 1)
+    # the rows of the returned map are new lists: remove_nasty_arc edits rows in place (documented), so a row object shared with the
+    # argument would let an edit of the result reach the caller's original map
+    lm = ('v', 'latter_map', 'P')
+
+    def own_row(t):
+        if t[0] == 'item' and t[2] == 1 and t[1][0] == 'iter' and any(x[0] == 'v' and x[1] == 'latter_map' for x in walk_term(t[1][1])):
+            return True
+        if t[0] == 'sub' and t[1][0] == 'v' and t[1][1] == 'latter_map':
+            return True
+        if t[0] == 'iter' and t[1][0] == 'call' and t[1][1][0] == 'attr' and t[1][1][2] == 'values' and \
+                t[1][1][1][0] == 'v' and t[1][1][1][1] == 'latter_map':
+            return True
+        return False
+
+    def fresh(t):
+        return t[0] in ('list', 'comp') or is_call(t, 'builtins.list', 'builtins.sorted') or \
+            (t[0] == 'call' and t[1][0] == 'attr' and t[1][2] == 'copy') or (t[0] == 'sub' and t[2][0] == 'slice')
+    k = 0
+    for nd in g.nodes:
+        for d in nd.defs:
+            if d.kind == 'mutate' and isinstance(d.extra, ast.Subscript) and isinstance(nd.stmt, ast.Assign) and d.name != 'latter_map' \
+                    and nd.loops and d.value is not None:
+                v = g.term(d.value, nd)
+                alts = g.alternatives(v)
+                # in-place growth (append / extend / +=) of a list keeps its identity: only the bindings decide
+                terms = [t for d_, t in alts if d_.kind not in ('mutate', 'aug')] if alts else [v]
+                if any(t is not None and own_row(t) for t in terms):
+                    k += 1
+                    run.refute('R-KEEP', g, 'rows-are-new-lists', nd.lineno,
+                               'remove_useless stores the argument\'s own row object %s into the map it returns: the result shares its rows '
+                               'with the input, so the documented in-place arc removal on the result also edits the caller\'s original map'
+                               % show([t for t in terms if t is not None and own_row(t)][0])[:60],
+                               inputs='trim, then remove_nasty_arc on the trimmed map, then use of the original map')
+                elif all(t is not None and fresh(t) for t in terms) or \
+                        all(t is not None and (fresh(t) or (t[0] == 'v' and any(
+                            d2.kind == 'assign' and d2.value is not None and isinstance(d2.value, (ast.List, ast.ListComp))
+                            for d2 in g.defs if d2.name == t[1]))) for t in terms):
+                    k += 1
+                    run.ok('R-KEEP', g, 'rows-are-new-lists', nd.lineno, 'every stored row is a list built in this call')
+                else:
+                    run.undecided('R-KEEP', g, 'rows-are-new-lists', nd.lineno, 'stored row %s not classified' % show(v)[:60])
 
 
 def _empty_when(test, var, pol):
